@@ -118,7 +118,7 @@ def main() -> None:
         }],
         "checks": checks,
         "not_applicable": na,
-        "notes": "Exit codes: 0 held, 1 violation (VIOLATION line, minimised replay reproduced in a fresh process), 2 harness problem (never a verdict). Known and fixed findings: /verif/known_findings.json. fix: commits in /repo: see DESIGN.md §5.",
+        "notes": "Exit codes: 0 held, 1 violation (VIOLATION line, minimised replay reproduced in a fresh process), 2 harness problem (never a verdict). Known and fixed findings: /verif/known_findings.json. fix: commits in /repo: see DESIGN.md §9.6 (ten commits, F1-F13).",
     }
     with open(os.path.join(HERE, "MANIFEST.json"), "w") as f:
         json.dump(man, f, indent=1)
